@@ -11,7 +11,7 @@ from particle import latex_to_html_name
 from particle.converters.bimap import DirectionalMaps
 
 from mc import shapes
-from mc.core import pmap, run_forked, short_hash
+from mc.core import pmap, run_forked, short_hash, run_tasks
 from props.c10_expand import lines_family
 from ref import chains
 
@@ -236,14 +236,11 @@ def exec_case(kind, payload):
 def run(ctx):
     sc = scenarios(ctx)
     ctx.log(f"{len(sc)} chain dictionaries from table sets, {sum(1 for _ in class_chains())} from the class representation")
-    for r in pmap(work, [sc[i:i + 40] for i in range(0, len(sc), 40)], ctx.workers):
-        ctx.absorb(r)
+    run_tasks(ctx, work, [sc[i:i + 40] for i in range(0, len(sc), 40)])
     cc = [{p: dict(c) for p, c in d.items()} for d in class_chains()]
-    for r in pmap(work_class, [cc[i:i + 40] for i in range(0, len(cc), 40)], ctx.workers):
-        ctx.absorb(r)
+    run_tasks(ctx, work_class, [cc[i:i + 40] for i in range(0, len(cc), 40)])
     seqs = [s for n in range(1, (4 if ctx.thorough else 3) + 1) for s in itertools.product(range(len(SESSION_CHAINS)), repeat=n)]
-    for r in pmap(work_sessions, [seqs[i:i + 4] for i in range(0, len(seqs), 4)], ctx.workers):
-        ctx.absorb(r)
+    run_tasks(ctx, work_sessions, [seqs[i:i + 4] for i in range(0, len(seqs), 4)])
     ctx.count(states=len(sc) + len(cc) + len(seqs), transitions=len(sc) + len(cc) + sum(len(s) for s in seqs))
     ctx.part("graphs", from_tables=len(sc), from_class=len(cc), renamings=len(RENAMES))
     ctx.part("sessions", histories=len(seqs), max_viewers=4 if ctx.thorough else 3, complete=True)
